@@ -329,16 +329,20 @@ def check_descent_complete(ck, R):
                "the blacklist, and package scope for plain functions", 8)
     m = FA(ck, CH + ".MementoFunctionHashRule.collect_transitive_dependencies")
     loops = [n.ast for n in m.cfg.nodes if n.kind == "for"]
-    srcs = {A.norm(l.iter) for l in loops}
-    for need in ("memento_fn.required_dependencies", "memento_fn.detected_dependencies"):
-        ok = need in srcs and any(A.norm(l.iter) == need and any(A.call_attr(c) == "_visit_dependency" for c in A.calls_in(l)) for l in loops)
-        ck.ob(R, m.key(None, need.split(".")[1]), ok, "%s are visited" % need.split(".")[1] if ok else
-              "a memento rule no longer visits %s: changes beneath them do not change the version" % need.split(".")[1], m.where())
+    lnode = {id(x.ast): x.id for x in m.cfg.nodes if x.kind == "for"}
+    xiter = {id(l): m.xnorm(l.iter, lnode[id(l)]) for l in loops}
+    srcs = set(xiter.values())
+    for need in ("self.memento_fn.required_dependencies", "self.memento_fn.detected_dependencies"):
+        ok = need in srcs and any(xiter[id(l)] == need and any(A.call_attr(c) == "_visit_dependency" for c in A.calls_in(l)) for l in loops)
+        ck.ob(R, m.key(None, need.split(".")[2]), ok, "%s are visited" % need.split(".")[2] if ok else
+              "a memento rule no longer visits %s: changes beneath them do not change the version" % need.split(".")[2], m.where())
     for l in loops:
         for c in [c for c in A.calls_in(l) if A.call_attr(c) == "_visit_dependency"]:
+            at_ = m.nodes(c)[0]
             okv = A.norm(A.kwarg(c, "symbol")) == A.norm(l.target) and A.norm(A.kwarg(c, "result")) == "result" \
-                and A.norm(A.kwarg(c, "src_fn")) == "memento_fn.src_fn" and A.norm(A.kwarg(c, "first_level")) == "memento_fn is root_fn"
-            ck.ob(R, m.key(c, "visit-args"), okv, "each dependency symbol is resolved in the function's own globals, first_level iff root" if okv else
+                and A.kwarg(c, "src_fn") is not None and m.xnorm(A.kwarg(c, "src_fn"), at_) == "self.memento_fn.src_fn" \
+                and A.kwarg(c, "first_level") is not None and m.xnorm(A.kwarg(c, "first_level"), at_) == "self.memento_fn is root_fn"
+            ck.ob(R, m.key(None, "visit-args:" + xiter[id(l)].split(".")[-1]), okv, "each dependency symbol is resolved in the function's own globals, first_level iff root" if okv else
                   "_visit_dependency is not called with (result, src_fn=memento_fn.src_fn, symbol=<dep>, first_level=memento_fn is root_fn)", m.where(c))
     # pruning of memento rules: only `self in result`
     rets = [r for r in m.returns()]
@@ -349,7 +353,7 @@ def check_descent_complete(ck, R):
           "a memento rule can be dropped for a reason other than 'already collected': cross-package memento dependencies stop versioning", m.where())
     n = FA(ck, CH + ".NonMementoFunctionHashRule.collect_transitive_dependencies")
     nl = [x.ast for x in n.cfg.nodes if x.kind == "for"]
-    okn = len(nl) == 1 and A.norm(nl[0].iter) == "list_dotted_names(src_fn)" and any(A.call_attr(c) == "_visit_dependency" and A.norm(A.kwarg(c, "symbol")) == A.norm(nl[0].target) for c in A.calls_in(nl[0]))
+    okn = len(nl) == 1 and n.xnorm(nl[0].iter, [x.id for x in n.cfg.nodes if x.kind == "for"][0]) == "list_dotted_names(self.src_fn)" and any(A.call_attr(c) == "_visit_dependency" and A.norm(A.kwarg(c, "symbol")) == A.norm(nl[0].target) for c in A.calls_in(nl[0]))
     ck.ob(R, n.key(None, "dotted-names"), okn, "plain functions are descended through every dotted name of their source" if okn else
           "a plain-function rule no longer visits list_dotted_names(src_fn)", n.where())
     tests = [A.norm(i.test) for i in n.stmts(ast.If)]
@@ -377,7 +381,8 @@ def check_descent_complete(ck, R):
     # _visit_dependency: every resolved rule is descended into before returning
     v = FA(ck, CH + ".HashRule._visit_dependency")
     colls = v.nodes_all(v.calls("collect_transitive_dependencies"))
-    rule_tests = [x for x in v.cfg.nodes if x.kind == "test" and A.norm(x.ast) == "rule is not None"]
+    rule_tests = [x for x in v.cfg.nodes if x.kind == "test" and isinstance(x.ast, ast.Compare) and len(x.ast.ops) == 1 and isinstance(x.ast.ops[0], ast.IsNot)
+                  and A.norm(x.ast.comparators[0]) == "None" and isinstance(x.ast.left, ast.Name) and "call:resolve_symbol" in v.df.deps(x.ast.left, x.id)]
     ck.need(len(rule_tests) >= 2, "_visit_dependency: `if rule is not None` sites not found")
     for t in rule_tests:
         starts = [d for (d, l) in v.cfg.succ[t.id] if l == "T"]
@@ -392,8 +397,19 @@ def check_descent_complete(ck, R):
     rs = v.fi.nested.get("resolve_symbol")
     ck.need(rs is not None, "_visit_dependency.resolve_symbol not found")
     rsa = FA(ck, rs)
-    tests = [A.norm(i.test) for i in rsa.stmts(ast.If)]
-    okb = set(tests) <= {"any((x is reference for x in blacklist))", "found is not None"}
+    tests = []
+    for i_ in rsa.stmts(ast.If):
+        t_ = i_.test
+        if isinstance(t_, ast.Compare) and len(t_.ops) == 1 and isinstance(t_.ops[0], ast.IsNot) and A.norm(t_.comparators[0]) == "None" \
+                and isinstance(t_.left, ast.Name) and "call:try_resolve" in rsa.deps(t_.left):
+            tests.append("<try_resolve result> is not None")
+        elif isinstance(t_, ast.Call) and A.norm(t_.func) == "any" and len(t_.args) == 1 and isinstance(t_.args[0], (ast.GeneratorExp, ast.ListComp)) \
+                and len(t_.args[0].generators) == 1 and isinstance(t_.args[0].generators[0].target, ast.Name) and not t_.args[0].generators[0].ifs \
+                and A.norm(t_.args[0].generators[0].iter) == "blacklist" and A.norm(t_.args[0].elt) == "%s is reference" % t_.args[0].generators[0].target.id:
+            tests.append("<blacklist identity>")
+        else:
+            tests.append(A.norm(t_))
+    okb = set(tests) <= {"<blacklist identity>", "<try_resolve result> is not None"}
     lp = [x.ast for x in rsa.cfg.nodes if x.kind == "for"]
     okb = okb and len(lp) == 1 and A.norm(lp[0].iter) == "HashRule.all_rules"
     ck.ob(R, rsa.key(None, "blacklist-by-identity"), okb, "symbols are excluded only by blacklist identity; all rule strategies are tried" if okb else
@@ -1061,7 +1077,14 @@ def check_dotted_names(ck, R):
         okk = {"ast.Attribute", "ast.Call", "ast.Name"} <= kinds
         ck.ob(R, fa.key(None, "chain-forms"), okk, "chains through attributes, calls and names are resolved" if okk else
               "the chain evaluator no longer handles %s" % sorted({"ast.Attribute", "ast.Call", "ast.Name"} - kinds), fa.where())
-    ups = [c for c in fa.calls("update") if A.norm(A.call_recv(c)) == "local_vars"]
+    # roles: RES = the extracted name set (receiver of the difference_update calls), LOCALS = the set
+    # filled from the code object, TOREM = the other set subtracted
+    du0 = [c for c in fa.calls("difference_update") if isinstance(A.call_recv(c), ast.Name) and len(c.args) == 1 and isinstance(c.args[0], ast.Name)]
+    RES = A.call_recv(du0[0]).id if du0 else "result"
+    argn = [c.args[0].id for c in du0 if A.call_recv(c).id == RES]
+    LOCALS = next((a for a in argn if any(A.norm(A.call_recv(c)) == a for c in fa.calls("update"))), "local_vars")
+    TOREM = next((a for a in argn if a != LOCALS), "to_remove")
+    ups = [c for c in fa.calls("update") if A.norm(A.call_recv(c)) == LOCALS]
     srcs = set()
     for c in ups:
         if c.args:
@@ -1072,13 +1095,13 @@ def check_dotted_names(ck, R):
     okl = srcs == {"fn.__code__.co_varnames", "fn.__code__.co_cellvars"}
     ck.ob(R, fa.key(None, "locals-removed"), okl, "exactly co_varnames and co_cellvars are treated as local" if okl else
           "the set of names treated as local is %s (expected co_varnames and co_cellvars): globals are dropped or locals kept" % sorted(srcs), fa.where())
-    du = [c for c in fa.calls("difference_update") if A.norm(A.call_recv(c)) == "result"]
+    du = [c for c in fa.calls("difference_update") if A.norm(A.call_recv(c)) == RES]
     okd = len(du) == 2
     ck.ob(R, fa.key(None, "difference"), okd, "locals and chains rooted at locals are subtracted" if okd else
           "list_dotted_names no longer subtracts both locals and local-rooted chains", fa.where())
     # chains are removed only when their FIRST COMPONENT is a local (membership of the part before
     # the first '.', not a string-prefix test)
-    tr = [s for s in fa.stmts(ast.Assign) if any(isinstance(t, ast.Name) and t.id == "to_remove" for t in s.targets)]
+    tr = [s for s in fa.stmts(ast.Assign) if any(isinstance(t, ast.Name) and t.id == TOREM for t in s.targets)]
     okc = False
     if len(tr) == 1 and isinstance(tr[0].value, (ast.SetComp, ast.ListComp, ast.GeneratorExp)):
         comp = tr[0].value
@@ -1087,28 +1110,29 @@ def check_dotted_names(ck, R):
         for c in comp.generators[0].ifs:
             conds += A.conj_atoms(c)
         for c in conds:
-            if isinstance(c, ast.Compare) and len(c.ops) == 1 and isinstance(c.ops[0], ast.In) and A.norm(c.comparators[0]) == "local_vars":
+            if isinstance(c, ast.Compare) and len(c.ops) == 1 and isinstance(c.ops[0], ast.In) and A.norm(c.comparators[0]) == LOCALS:
                 left = A.norm(c.left)
                 if left in ("%s[0:%s.find('.')]" % (var, var), "%s[:%s.find('.')]" % (var, var), "%s.split('.')[0]" % var,
                             "%s.split('.', 1)[0]" % var, "%s.partition('.')[0]" % var):
                     okc = True
         if any(isinstance(n, ast.Call) and A.call_attr(n) == "startswith" for n in ast.walk(comp)):
             okc = False
-        okc = okc and A.norm(comp.generators[0].iter) == "result"
+        okc = okc and A.norm(comp.generators[0].iter) == RES
     ck.ob(R, fa.key(None, "local-rooted-chains"), okc, "a dotted name is dropped only when its first component is a local" if okc else
           "dotted names are not filtered by membership of their first component in the locals (e.g. a string-prefix test): "
           "`steps.base` is dropped when a parameter is called `step`, and the dependency disappears from the closure", fa.where())
     # nothing else narrows the name set between extraction and return
     narrow = []
     for st in fa.stmts():
-        if isinstance(st, ast.Assign) and any(isinstance(t, ast.Name) and t.id == "result" for t in st.targets):
-            if A.norm(st.value) not in ("extractor.references",):
+        if isinstance(st, ast.Assign) and any(isinstance(t, ast.Name) and t.id == RES for t in st.targets):
+            if not (isinstance(st.value, ast.Attribute) and st.value.attr == "references" and isinstance(st.value.value, ast.Name)
+                    and fa.xnorm(st.value.value, fa.nodes(st)[0]).endswith("()")):
                 narrow.append(st)
-        if isinstance(st, ast.AugAssign) and isinstance(st.target, ast.Name) and st.target.id == "result":
+        if isinstance(st, ast.AugAssign) and isinstance(st.target, ast.Name) and st.target.id == RES:
             narrow.append(st)
-        if isinstance(st, ast.Expr) and isinstance(st.value, ast.Call) and A.norm(A.call_recv(st.value)) == "result" \
+        if isinstance(st, ast.Expr) and isinstance(st.value, ast.Call) and A.norm(A.call_recv(st.value)) == RES \
                 and A.call_attr(st.value) in ("difference_update", "intersection_update", "discard", "remove", "clear", "pop", "symmetric_difference_update"):
-            if not (A.call_attr(st.value) == "difference_update" and [A.norm(a) for a in st.value.args] in (["local_vars"], ["to_remove"])):
+            if not (A.call_attr(st.value) == "difference_update" and [A.norm(a) for a in st.value.args] in ([LOCALS], [TOREM])):
                 narrow.append(st)
     ck.ob(R, fa.key(None, "no-further-narrowing"), not narrow, "the extracted names are only reduced by the locals" if not narrow else
           "the extracted name set is narrowed further (`%s`): names the function really refers to (e.g. only inside a nested lambda or generator) "
@@ -1140,10 +1164,12 @@ def check_graph_derivation(ck, R):
     t = FA(ck, "dependency_graph.DependencyGraph.transitive_memento_fn_dependencies")
     r = t.one(t.returns(), "return")
     gens = [n for n in ast.walk(r.value) if isinstance(n, (ast.GeneratorExp, ast.SetComp, ast.ListComp))]
-    ok = len(gens) == 1 and A.norm(gens[0].generators[0].iter) == "self._all_rules" and A.norm(gens[0].elt) == "rule.memento_fn"
+    ok = len(gens) == 1
     if ok:
-        cond = " and ".join(A.norm(c) for c in gens[0].generators[0].ifs)
-        ok = "hasattr(rule, 'memento_fn')" in cond and "rule.memento_fn != self.memento_fn" in cond and "first_level" not in cond and cond.count(" and ") == 1
+        ga = A.alpha(gens[0])
+        ok = A.norm(ga.generators[0].iter) == "self._all_rules" and A.norm(ga.elt) == "_c0.memento_fn"
+        cond = " and ".join(A.norm(c) for c in ga.generators[0].ifs)
+        ok = ok and "hasattr(_c0, 'memento_fn')" in cond and "_c0.memento_fn != self.memento_fn" in cond and "first_level" not in cond and cond.count(" and ") == 1
     ck.ob(R, t.key(None), ok, "transitive = every rule with a function, except self" if ok else
           "transitive_memento_fn_dependencies is not {rule.memento_fn for all rules with a function, minus self}", t.where())
     d = FA(ck, "dependency_graph.DependencyGraph.direct_memento_fn_dependencies")
